@@ -992,7 +992,7 @@ func (r *Runner) builtin(ctx context.Context, pos syntax.Pos, name string, args 
 			switch arg {
 			case "ERR":
 				r.callbackErr = callback
-			case "EXIT":
+			case "EXIT", "0":
 				r.callbackExit = callback
 			default:
 				return failf(2, "trap: %s: invalid signal specification\n", arg)
